@@ -3,6 +3,7 @@
   Property theorems only.
 -/
 import Astm.Model.Archive
+import Astm.Generated.Footprint
 
 namespace Astm.C16
 open Astm.Arch
@@ -213,6 +214,19 @@ theorem distinct_files_exact_bytes (fs0 : Name → Option Bytes) (msgs : Nat →
   have h := inv_run fs0 msgs acts
   exact ⟨fun w w' n h1 h2 => h.unique w w' n (Or.inr h1) (Or.inr h2),
     fun w n hd => ⟨h.content w n hd, (h.fresh w n (Or.inr hd)).1⟩, h.old_kept, h.no_stray⟩
+
+/-- every completed transfer reaches a writer (read from server.py / protocol.py on every run): the queue the
+    protocols put into is created without a size limit and only ever used through `put_nowait` (so no hand-over is
+    refused), the consumer task loops for ever and calls the dispatch closure once per item, and the closure
+    archives with `write_message(message, abspath(output))` whenever an output directory is given -/
+theorem every_delivery_reaches_a_writer :
+    protocolFootprint.queueUnbounded = true ∧
+    (∀ u ∈ protocolFootprint.queueUses, u = "put_nowait") ∧
+    protocolFootprint.factoryPassesQueue = true ∧
+    protocolFootprint.consumeTask = true ∧ protocolFootprint.consumeLoopsForever = true ∧
+    protocolFootprint.consumeCallsCallbackPerItem = true ∧ protocolFootprint.callbackIsDispatch = true ∧
+    protocolFootprint.writeWhenOutput = true ∧ protocolFootprint.writeArgs = true := by
+  decide
 
 /-- non-vacuity: two writers, the same clock second, interleaved so that both look at the same name -/
 theorem example_same_second :
